@@ -27,7 +27,7 @@ CONFIRM_CPU = 20
 PROFILE_DIR = os.path.join(core.ROOT, 'profiles')
 # corpus files whose truncations / mutants hang (known findings C06-K2...): kept as regress replays, left out of the random pools so that
 # the search is not spent on 20-second runs of known hangs
-HANG_FILES = {'oc/properties.m'}
+HANG_FILES = set()
 
 
 def frame(err):
@@ -105,13 +105,30 @@ _EX = {}
 _LEDGER = [core.Ledger('C06')]
 
 
+_PROF = {}
+
+
+def profile_options(name):
+    """a curated profile as an option dict (so that ddmin can reduce it to the options that matter)"""
+    if name not in _PROF:
+        reg = registry.by_name()
+        d = {}
+        for ln in open(os.path.join(PROFILE_DIR, name + '.cfg'), errors='replace'):
+            ln = ln.split('#', 1)[0].strip()
+            m = re.match(r'^([A-Za-z_0-9]+)\s*=?\s*(\S+)$', ln)
+            if m and m.group(1) in reg and reg[m.group(1)]['type'] != 'str':
+                d[m.group(1)] = m.group(2).strip('"').lower() if reg[m.group(1)]['type'] != 'num' else m.group(2)
+        _PROF[name] = d
+    return dict(_PROF[name])
+
+
 def draw_cfg(rng):
     k = rng.randrange(10)
     if k <= 2:
         return {}, None, 'default'
     if k == 3:
         p = rng.choice(sorted(n[:-4] for n in os.listdir(PROFILE_DIR) if n.endswith('.cfg')))
-        return {}, p, 'profile'
+        return profile_options(p), None, 'profile:' + p
     d = registry.random_cfg(rng, ('WS', 'MOD', 'CMT'), rng.choice([0.01, 0.03, 0.08, 0.2]))
     family.apply_exclusions(d, _EX)
     registry.fix_nl_max(d)
